@@ -9,7 +9,51 @@ package models
 //   points               = base point * multiset of scalar factors (at most three)
 
 func ScReduce(out *[32]byte, s *[64]byte) {
-	copy(out[:], vUFN("sc_reduce", 32, s[:]))
+	copy(out[:], scReduceTerm(s[:]))
+}
+
+// results of the scalar kernels are canonical: below l
+func scCanonical(out []byte) []byte {
+	be := make([]byte, 32)
+	for i := range out {
+		be[31-i] = out[i]
+	}
+	l := make([]byte, 32)
+	copy(l, []byte{0x10})
+	copy(l[16:], []byte{0x14, 0xde, 0xf9, 0xde, 0xa2, 0xf7, 0x9c, 0xd6, 0x58, 0x12, 0x63, 0x1a, 0x5c, 0xf5, 0xd3, 0xed})
+	vAssume(vBytesLess(be, l))
+	return out
+}
+
+func scReduceTerm(wide []byte) []byte { return scCanonical(vUFN("sc_reduce", 32, wide)) }
+
+// what the multiply-add kernel was applied to: the point model uses it to recognise
+// [k x + r]B - [k]([x]B) = [r]B  and  [x y]B = [y]([x]B)
+type scMulEntry struct{ a, b, c, out []byte }
+
+var scMulLog []scMulEntry
+
+func scMulAddTerm(a, b, c []byte) []byte {
+	if scZeroBytes == nil {
+		scZeroBytes = make([]byte, 32)
+	}
+	var out []byte
+	if vSameTerm(c, scZeroBytes) {
+		// products are commutative; a b + 0 is written as the product symbol
+		out = vUFN("sc_mul", 32, a, b)
+		vAssume(vBytesEq(out, vUFN("sc_mul", 32, b, a)))
+		c = nil
+	} else {
+		out = vUFN("sc_muladd", 32, a, b, c)
+	}
+	scCanonical(out)
+	for i := range scMulLog {
+		if vSameTerm(scMulLog[i].out, out) {
+			return out
+		}
+	}
+	scMulLog = append(scMulLog, scMulEntry{a: clone(a), b: clone(b), c: clone(c), out: out})
+	return out
 }
 
 var scZeroBytes []byte
@@ -24,17 +68,7 @@ func isZero32(b []byte) bool {
 }
 
 func ScMulAdd(out, a, b, c *[32]byte) {
-	// products are commutative; a b + 0 is written as the product symbol
-	if scZeroBytes == nil {
-		scZeroBytes = make([]byte, 32)
-	}
-	if vSameTerm(c[:], scZeroBytes) {
-		p := vUFN("sc_mul", 32, a[:], b[:])
-		vAssume(vBytesEq(p, vUFN("sc_mul", 32, b[:], a[:])))
-		copy(out[:], p)
-		return
-	}
-	copy(out[:], vUFN("sc_muladd", 32, a[:], b[:], c[:]))
+	copy(out[:], scMulAddTerm(a[:], b[:], c[:]))
 }
 
 // (*Scalar).ModInverse as a whole: s <- INV(s), with INV(INV(s)) = s
@@ -50,6 +84,8 @@ type edPoint struct {
 	base       []byte
 	f1, f2, f3 []byte
 	nf         int
+	neg        bool // the negative of pos
+	pos        *edPoint
 }
 
 var (
@@ -125,6 +161,17 @@ func edEncode(p *edPoint) []byte {
 	if edIsIdentity(p) {
 		return edIdentityEnc()
 	}
+	if p.neg {
+		enc = vUFN("ed_neg", 32, edEncode(p.pos))
+		vAssume(vUFBool("ed_valid", enc))
+		for i := range edReg {
+			if edReg[i].pt == p {
+				return enc
+			}
+		}
+		edReg = append(edReg, edRegEntry{enc: enc, pt: p})
+		return enc
+	}
 	switch p.nf {
 	case 0:
 		enc = clone(p.base)
@@ -189,9 +236,19 @@ func EdPointSetBytes(v interface{}, x []byte) (interface{}, error) {
 
 func EdPointBytes(v interface{}) []byte { return edEncode(edGet(v)) }
 
+func edNegOf(q *edPoint) *edPoint {
+	if q.neg {
+		return q.pos
+	}
+	return &edPoint{base: q.base, f1: q.f1, f2: q.f2, f3: q.f3, nf: q.nf, neg: true, pos: q}
+}
+
 func edMul(p *edPoint, f []byte) *edPoint {
 	if edIsIdentity(p) {
 		return &edPoint{base: edIdentityEnc()}
+	}
+	if p.neg {
+		return edNegOf(edMul(p.pos, f))
 	}
 	inv := vUF("perm_sc_inv", 32, f)
 	vAssume(vBytesEq(vUF("perm_sc_inv", 32, inv), f))
@@ -236,17 +293,72 @@ func EdPointNegate(v interface{}, p interface{}) interface{} {
 		edSet(v, &edPoint{base: edIdentityEnc()})
 		return v
 	}
-	edSet(v, &edPoint{base: vUFN("ed_neg", 32, edEncode(q))})
+	edSet(v, edNegOf(q))
 	return v
 }
 
+func scSame(a, b []byte) bool { return vSameTerm(a, b) || vBytesEq(a, b) }
+
+// x is the discrete logarithm of p = basepoint * factors: the single factor, or the recorded
+// product of the two factors
+func edScalarOf(p *edPoint, x []byte) bool {
+	if edBasePoint == nil || p.neg || !vSameTerm(p.base, edBasePoint.base) {
+		return false
+	}
+	if p.nf == 1 {
+		return scSame(p.f1, x)
+	}
+	if p.nf == 0 {
+		// the two factors of x cancelled: x = a * INV(a) = 1
+		for i := range scMulLog {
+			m := scMulLog[i]
+			if len(m.c) == 0 && scSame(m.out, x) && (scSame(m.b, vUF("perm_sc_inv", 32, m.a)) || scSame(m.a, vUF("perm_sc_inv", 32, m.b))) {
+				return true
+			}
+		}
+		return false
+	}
+	if p.nf == 2 {
+		for i := range scMulLog {
+			m := scMulLog[i]
+			if len(m.c) == 0 && scSame(m.out, x) {
+				if (scSame(m.a, p.f1) && scSame(m.b, p.f2)) || (scSame(m.a, p.f2) && scSame(m.b, p.f1)) {
+					return true
+				}
+			}
+		}
+	}
+	return false
+}
+
 func EdPointVarTimeDoubleScalarBaseMult(v interface{}, a interface{}, A interface{}, b interface{}) interface{} {
+	pA := edGet(A)
+	ka, sb := scBytesOf(a), scBytesOf(b)
 	// [a]O + [0]B = O
-	if edIsIdentity(edGet(A)) && vBytesEq(scBytesOf(b), make([]byte, 32)) {
+	if edIsIdentity(pA) && vBytesEq(sb, make([]byte, 32)) {
 		edSet(v, &edPoint{base: edIdentityEnc()})
 		return v
 	}
-	edSet(v, &edPoint{base: vUFN("ed_double_mult", 32, scBytesOf(a), edEncode(edGet(A)), scBytesOf(b))})
+	// [k](-[x]B) + [k x + r]B = [r]B
+	if pA.neg && edBasePoint != nil {
+		for i := range scMulLog {
+			m := scMulLog[i]
+			if len(m.c) != 32 || !vSameTerm(m.out, sb) {
+				continue
+			}
+			var x []byte
+			if scSame(m.a, ka) {
+				x = m.b
+			} else if scSame(m.b, ka) {
+				x = m.a
+			}
+			if x != nil && edScalarOf(pA.pos, x) {
+				edSet(v, edMul(&edPoint{base: edBasePoint.base}, clone(m.c)))
+				return v
+			}
+		}
+	}
+	edSet(v, &edPoint{base: vUFN("ed_double_mult", 32, ka, edEncode(pA), sb)})
 	return v
 }
 
